@@ -37,6 +37,7 @@ func c01nodeseq(cw *caseWriter, tier string, r *rng) {
 }
 
 func runC01(cw *caseWriter, tier string, seed uint64) {
+	runC01cluster(cw, tier, seed)
 	r := &rng{s: seed}
 	c01nodeseq(cw, tier, r)
 	if tier == "quick" {
